@@ -42,12 +42,33 @@ def main():
         return 2
     if r.returncode in (0, 1, 2):
         return r.returncode
-    # the runner died (signal / interpreter abort): the implementation crashed under the harness
+    # The runner died (signal / interpreter abort).  A crash that the implementation causes deterministically repeats;
+    # one that does not repeat (seen once in ~500 sweep runs on the unchanged tree: SIGSEGV inside native code under a
+    # heavily loaded machine, not reproducible with the same seed) is not evidence about the property.  So the run is
+    # repeated once with the same seed: the verdict is the second run's, and the first crash is recorded in the evidence.
+    first = r.returncode
+    print('NOTE: runner died with status %d; repeating the run once with the same seed' % first, flush=True)
+    remaining = max(60, limit - (time.time() - t0))
+    try:
+        r = subprocess.run(args, cwd=VERIF, env=env, timeout=remaining)
+    except subprocess.TimeoutExpired:
+        print('INFRA: time-out after %d s' % limit)
+        return 2
+    if r.returncode in (0, 1, 2):
+        try:
+            evp = os.path.join(VERIF, 'evidence', prop + '.json')
+            ev = json.load(open(evp))
+            ev.setdefault('coverage', {}).setdefault('samples', []).append(dict(runner_died_once_with_status=first, rerun_exit=r.returncode))
+            json.dump(ev, open(evp, 'w'), indent=1)
+        except Exception:  # noqa
+            pass
+        return r.returncode
+    # died twice: the implementation crashes under the harness
     os.makedirs(os.path.join(VERIF, 'replays'), exist_ok=True)
     path = os.path.join(VERIF, 'replays', '%s_%s_%d_crash.json' % (prop, tier, seed))
     json.dump(dict(property=prop, seed=seed, tier=tier, kind='no-failing-input-found',
                    broken=[dict(kind='correspondence', name='runner process died',
-                                detail='exit status %d while exercising the implementation' % r.returncode)]),
+                                detail='exit status %d (first run) and %d (repeated run) while exercising the implementation' % (first, r.returncode))]),
               open(path, 'w'), indent=1)
     ev = dict(property_id=prop, tier=tier, seed=seed, level='proof',
               coverage=dict(evaluations=1, distinct_nontrivial=2, rule='runner crashed; see replay',
